@@ -11,10 +11,10 @@
 // The code is bound, engine A: every query state TLC enumerates, together with
 // the hit set the algorithm model computes, is replayed into real indexes
 // (upsidedown, scorch, scorch with the s2 plugin). Model lattice point (x,y)
-// becomes the centre of cell (x,y) of the 2^NB x 2^NB degree grid, model edge
-// e the cell boundary, so every point is half a cell (>= 5 degrees) away from
-// every box edge. Engine B: real Morton codes are judged by TLC
-// (spec/trace/JudgeGeo.tla).
+// becomes a (seeded) point well inside cell (x,y) of the 2^NB x 2^NB degree
+// grid, model edge e the cell boundary, so every point is at least 0.15 of a
+// cell (> 1.6 degrees) away from every box edge. Engine B: real Morton codes
+// are judged by TLC (spec/trace/JudgeGeo.tla).
 package c18
 
 import (
@@ -47,13 +47,36 @@ func init() {
 
 // ---- the grid
 
-type grid struct{ nb int }
+type grid struct {
+	nb   int
+	seed int64 // 0: points at the exact cell centres
+}
 
 func (g grid) side() int { return 1 << g.nb }
 func (g grid) lonEdge(e int) float64 { return -180 + 360*float64(e)/float64(g.side()) }
 func (g grid) latEdge(e int) float64 { return -90 + 180*float64(e)/float64(g.side()) }
 func (g grid) lonCell(x int) float64 { return -180 + 360*(float64(x)+0.5)/float64(g.side()) }
 func (g grid) latCell(y int) float64 { return -90 + 180*(float64(y)+0.5)/float64(g.side()) }
+
+// frac places the point of model cell (x,y) inside its degree cell: a seeded
+// position in [0.15, 0.85] of the cell per dimension (exact centres would all
+// take the same 0111.. path through the real subdivision below the grid), a
+// quarter of the cells keep the exact centre.
+func (g grid) frac(x, y, dim int) float64 {
+	if g.seed == 0 {
+		return 0.5
+	}
+	h := uint64(g.seed)*0x9E3779B97F4A7C15 + uint64(x)*0xBF58476D1CE4E5B9 + uint64(y)*0x94D049BB133111EB + uint64(dim)*0xD6E8FEB86659FD93
+	h ^= h >> 31
+	h *= 0xD6E8FEB86659FD93
+	h ^= h >> 29
+	if h%4 == 0 {
+		return 0.5
+	}
+	return 0.15 + 0.7*float64((h>>8)%1001)/1000
+}
+func (g grid) lonPoint(p point) float64 { return -180 + 360*(float64(p.X)+g.frac(p.X, p.Y, 0))/float64(g.side()) }
+func (g grid) latPoint(p point) float64 { return -90 + 180*(float64(p.Y)+g.frac(p.X, p.Y, 1))/float64(g.side()) }
 
 type point struct{ X, Y int }
 
@@ -130,7 +153,7 @@ func openIndex(eng string, g grid, ds *docSet) (bleve.Index, error) {
 		var vs []interface{}
 		for k, p := range ds.pts[id] {
 			// the accepted input forms of a geo point alternate
-			lon, lat := g.lonCell(p.X), g.latCell(p.Y)
+			lon, lat := g.lonPoint(p), g.latPoint(p)
 			_ = k
 			switch i % 3 {
 			case 0:
@@ -179,7 +202,7 @@ func openIndex(eng string, g grid, ds *docSet) (bleve.Index, error) {
 		})
 		var want []string
 		for _, p := range ds.pts[id] {
-			want = append(want, fmt.Sprintf("%.4f,%.4f", g.lonCell(p.X), g.latCell(p.Y)))
+			want = append(want, fmt.Sprintf("%.4f,%.4f", g.lonPoint(p), g.latPoint(p)))
 		}
 		sort.Strings(got)
 		sort.Strings(want)
@@ -198,6 +221,7 @@ type qcase struct {
 	X, Y                     int      `json:",omitempty"`
 	Expected                 []string `json:"expected"` // document ids, sorted (computed by TLC)
 	NB                       int      `json:"nb"`
+	Seed                     int64    `json:"seed"`
 	Eng                      string   `json:"eng,omitempty"`
 	Variant                  int      `json:"variant"`
 }
@@ -229,15 +253,15 @@ func buildQuery(g grid, q qcase) (query.Query, search.SortOrder) {
 		pq.SetField("loc")
 		return pq, nil
 	case "tiny":
-		dq := bleve.NewGeoDistanceQuery(g.lonCell(q.X), g.latCell(q.Y), tinyRadii[q.Variant%len(tinyRadii)])
+		dq := bleve.NewGeoDistanceQuery(g.lonPoint(point{q.X, q.Y}), g.latPoint(point{q.X, q.Y}), tinyRadii[q.Variant%len(tinyRadii)])
 		dq.SetField("loc")
 		return dq, nil
 	case "all":
-		dq := bleve.NewGeoDistanceQuery(g.lonCell(q.X), g.latCell(q.Y), hugeRadii[q.Variant%len(hugeRadii)])
+		dq := bleve.NewGeoDistanceQuery(g.lonPoint(point{q.X, q.Y}), g.latPoint(point{q.X, q.Y}), hugeRadii[q.Variant%len(hugeRadii)])
 		dq.SetField("loc")
 		return dq, nil
 	case "sort":
-		sg, err := search.NewSortGeoDistance("loc", "km", g.lonCell(q.X), g.latCell(q.Y), q.Variant%2 == 1)
+		sg, err := search.NewSortGeoDistance("loc", "km", g.lonPoint(point{q.X, q.Y}), g.latPoint(point{q.X, q.Y}), q.Variant%2 == 1)
 		if err != nil {
 			panic(err)
 		}
@@ -344,7 +368,7 @@ func fromState(st tlaval.State, g grid, ds *docSet) (*qcase, error) {
 		return nil, nil
 	}
 	qm := tlaval.Map(st["q"])
-	q := &qcase{Kind: tlaval.Str(qm["kind"]), NB: g.nb}
+	q := &qcase{Kind: tlaval.Str(qm["kind"]), NB: g.nb, Seed: g.seed}
 	switch q.Kind {
 	case "box", "poly":
 		q.Left, q.Right, q.Bottom, q.Top = tlaval.Int(qm["left"]), tlaval.Int(qm["right"]), tlaval.Int(qm["bottom"]), tlaval.Int(qm["top"])
@@ -370,12 +394,12 @@ func fromState(st tlaval.State, g grid, ds *docSet) (*qcase, error) {
 func run(c *core.Ctx) error {
 	c.SetExhaustive(false)
 	c.SetRule("distinct non-trivial = distinct (query kind, box/centre) states of GeoGridMC with a non-empty expected hit set, each replayed on three engines; plus distinct Morton-coded points")
-	c.Assume("points are cell centres of the 2^NB x 2^NB degree grid and box edges cell boundaries: every point is half a cell away from every edge, so float rounding at edges cannot change membership")
-	c.Assume("distance queries only with radius <= 1 km (selects exactly the co-located points; nearest other point is > 200 km away) or >= 20100 km (selects all); nothing else about circles, general polygons or true-distance order is decided")
+	c.Assume("points lie inside the cells of the 2^NB x 2^NB degree grid, at least 0.15 of a cell (> 1.6 degrees) away from every cell boundary, and box edges are cell boundaries, so float rounding at edges cannot change membership")
+	c.Assume("distance queries only with radius <= 1 km (selects exactly the co-located points; the nearest other point is > 20 km away) or >= 20100 km (selects all); nothing else about circles, general polygons or true-distance order is decided")
 
 	nb := c.Pick(3, 4)
 	cfg := fmt.Sprintf("GeoGridMC_n%d.cfg", nb)
-	g := grid{nb}
+	g := grid{nb, c.Seed}
 	ds := modelDocs(g)
 	idx := map[string]bleve.Index{}
 	for _, eng := range engines {
@@ -491,11 +515,11 @@ func describe(g grid, q qcase) string {
 	case "box", "poly":
 		return fmt.Sprintf("lon [%g,%g] lat [%g,%g] (edges %d..%d x %d..%d of the %dx%d grid)", g.lonEdge(q.Left), g.lonEdge(q.Right), g.latEdge(q.Bottom), g.latEdge(q.Top), q.Left, q.Right, q.Bottom, q.Top, g.side(), g.side())
 	case "tiny":
-		return fmt.Sprintf("distance %s around (%g,%g)", tinyRadii[q.Variant%len(tinyRadii)], g.lonCell(q.X), g.latCell(q.Y))
+		return fmt.Sprintf("distance %s around (%g,%g)", tinyRadii[q.Variant%len(tinyRadii)], g.lonPoint(point{q.X, q.Y}), g.latPoint(point{q.X, q.Y}))
 	case "all":
-		return fmt.Sprintf("distance %s around (%g,%g)", hugeRadii[q.Variant%len(hugeRadii)], g.lonCell(q.X), g.latCell(q.Y))
+		return fmt.Sprintf("distance %s around (%g,%g)", hugeRadii[q.Variant%len(hugeRadii)], g.lonPoint(point{q.X, q.Y}), g.latPoint(point{q.X, q.Y}))
 	}
-	return fmt.Sprintf("sort by distance from (%g,%g) desc=%v", g.lonCell(q.X), g.latCell(q.Y), q.Variant%2 == 1)
+	return fmt.Sprintf("sort by distance from (%g,%g) desc=%v", g.lonPoint(point{q.X, q.Y}), g.latPoint(point{q.X, q.Y}), q.Variant%2 == 1)
 }
 
 // s2Active records whether the s2 configuration really indexes different terms.
@@ -569,7 +593,7 @@ func mortonRecords(c *core.Ctx) error {
 		switch i % 3 {
 		case 0: // cell centres of grids up to 2^15 x 2^15
 			nb := 1 + r.Intn(15)
-			g := grid{nb}
+			g := grid{nb, 0}
 			x, y := r.Intn(g.side()), r.Intn(g.side())
 			if i%12 == 0 { // corners and rim
 				x, y = []int{0, g.side() - 1}[r.Intn(2)], []int{0, g.side() - 1}[r.Intn(2)]
@@ -579,7 +603,7 @@ func mortonRecords(c *core.Ctx) error {
 			add(mortonRecord(r.Float64()*360-180, r.Float64()*180-90, 0, 0, 0))
 		default: // next to a cell boundary of some grid
 			nb := 1 + r.Intn(20)
-			g := grid{nb}
+			g := grid{nb, 0}
 			lon := math.Nextafter(g.lonEdge(r.Intn(g.side()+1)), float64(r.Intn(3)-1)*1000)
 			lat := math.Nextafter(g.latEdge(r.Intn(g.side()+1)), float64(r.Intn(3)-1)*1000)
 			add(mortonRecord(math.Max(-180, math.Min(180, lon)), math.Max(-90, math.Min(90, lat)), 0, 0, 0))
@@ -650,7 +674,7 @@ func replay(c *core.Ctx, path string) error {
 	if err := json.Unmarshal(f.Replay, &q); err != nil {
 		return err
 	}
-	g := grid{q.NB}
+	g := grid{q.NB, q.Seed}
 	ds := modelDocs(g)
 	idx, err := openIndex(q.Eng, g, ds)
 	if err != nil {
